@@ -103,6 +103,11 @@ pub fn domain(dc: &Decaf, quick: bool) -> Vec<BigUint> {
     for (r0, _) in crate::sqrtclass::elligator_r0s(dc, quick) {
         v.push(r0);
     }
+    // r0 solved for so that a named intermediate of the map (r, den, num, num*den, s) is a
+    // boundary class of limb-wise comparison / negation / XOR-folding
+    for (r0, _) in crate::sqrtclass::elligator_by_intermediate(dc) {
+        v.push(r0);
+    }
     // unstructured members: a fixed pseudo-random family
     v.extend(crate::fields::prand(0x07, if quick { 1 << 12 } else { 1 << 16 }, q));
     crate::fields::dedup(v)
